@@ -258,7 +258,8 @@ func encodeBag(s *bagSpec) (out []byte, order []int) {
 var c18Types = []struct{ typ, md5, def string }{
 	{"std_msgs/String", "992ce8a1687cec8c8bd883ec73ca41d1", "string data\n"},
 	{"std_msgs/String", "ffffffffffffffffffffffffffffffff", "string data\nint32 extra\n"}, // same type name, different md5
-	{"pkg/Two", "00000000000000000000000000000002", "int32 a\nfloat64 b\n"},
+	// a definition with constants and a dependent type: '=' inside the value of a header field
+	{"pkg/Two", "00000000000000000000000000000002", "byte DEBUG=1\nint32 a\nfloat64 b\npkg/Inner in\n================================================================================\nMSG: pkg/Inner\nint32 x=2\nstring s\n"},
 }
 
 // genBag enumerates bags in three families: mode 0 varies the content (ids, types, <=3 messages)
